@@ -144,6 +144,11 @@ class FrozenDict(collections.abc.Mapping):
             self._hash = result
         return self._hash
 
+    def __sizeof__(self):
+        # the wrapped dict is owned by this object: count it, so that
+        # yaql.memoryQuota (sys.getsizeof) sees the size of the mapping
+        return object.__sizeof__(self) + sys.getsizeof(self._d)
+
     def __repr__(self):
         return repr(self._d)
 
